@@ -21,6 +21,13 @@ def amountSalt : Bytes := ascii ['a', 'm', 'o', 'u', 'n', 't']
 /-- "commitment_mask" -/
 def maskSalt : Bytes := ascii ['c', 'o', 'm', 'm', 'i', 't', 'm', 'e', 'n', 't', '_', 'm', 'a', 's', 'k']
 
+/-- Monero's second generator `H` in compressed form (`rctTypes.h`:
+`static const key H = { {0x8b, 0x65, 0x59, 0x70, 0x15, 0x37, 0x99, 0xaf, 0x2a, 0xea, 0xdc, 0x9f, 0xf1, 0xad, 0xd0, 0xea,
+0x6c, 0x72, 0x51, 0xd5, 0x41, 0x54, 0xcf, 0xa9, 0x2c, 0x17, 0x3a, 0x0d, 0xd3, 0x9c, 0x1f, 0x94} };`) -/
+def moneroH : Bytes :=
+  [0x8b, 0x65, 0x59, 0x70, 0x15, 0x37, 0x99, 0xaf, 0x2a, 0xea, 0xdc, 0x9f, 0xf1, 0xad, 0xd0, 0xea,
+   0x6c, 0x72, 0x51, 0xd5, 0x41, 0x54, 0xcf, 0xa9, 0x2c, 0x17, 0x3a, 0x0d, 0xd3, 0x9c, 0x1f, 0x94]
+
 /-- Pedersen commitment to amount `a` with mask `y` -/
 def commitment (pr : Prims P) (H : P) (y a : Nat) : P := pr.add (pr.smul y pr.G) (pr.smul a H)
 
